@@ -235,15 +235,36 @@ def random_chain(r, g, idx, length):
 
 
 # ------------------------------------------------------------------------------------------ implementation objects
+def full_array(arr, channels=0):
+    """array handed to Volume: `channels` channel planes with unrelated contents (0 = no channel dimension)"""
+    if not channels:
+        return arr
+    planes = [arr] + [((arr.astype(np.int64) * (37 * i + 11)) % 101 - 40 * i).astype(arr.dtype) for i in range(1, channels)]
+    return np.stack(planes, axis=-1)
+
+
 def make_volume(g, arr, channels=0):
     from highdicom.volume import Volume
-    a = arr
     kw = {}
     if channels:
         from highdicom.volume import ChannelDescriptor
-        a = np.stack([arr + 1000 * i for i in range(channels)], axis=-1)
         kw['channels'] = {ChannelDescriptor('chan', is_custom=True, value_type=int): list(range(channels))}
-    return Volume(a, affine_np(g), g['cs'], frame_of_reference_uid=g['for'], **kw)
+    return Volume(full_array(arr, channels), affine_np(g), g['cs'], frame_of_reference_uid=g['for'], **kw)
+
+
+def pad_vector(full, mode, cv, per_channel):
+    """expected padding value per channel for the one-value modes (numpy statistics, cast to the integer dtype
+    by truncation), None for EDGE"""
+    f = full if full.ndim == 4 else full[..., None]
+    C = f.shape[-1]
+    if mode == 'CONSTANT':
+        return [cv] * C
+    if mode == 'EDGE':
+        return None
+    fn = {'MINIMUM': np.min, 'MAXIMUM': np.max, 'MEAN': np.mean, 'MEDIAN': np.median}[mode]
+    if per_channel and C > 1:
+        return [int(np.trunc(fn(f[..., c]))) for c in range(C)]
+    return [int(np.trunc(fn(f)))] * C
 
 
 def make_geometry(g):
@@ -277,7 +298,7 @@ def indep_geq_entries(ra, ta, tol, slack=F(1)):
 
 
 # ------------------------------------------------------------------------------------------ oracle for one match
-def oracle_match(ctx, case, src_g, src_arr, tgt_g, res, tol, cv, mode='CONSTANT', channels=0):
+def oracle_match(ctx, case, src_g, src_arr, tgt_g, res, tol, cv, mode='CONSTANT', channels=0, per_channel=False):
     """res: returned Volume.  Returns True when everything holds."""
     ok = True
     shape = tuple(res.spatial_shape)
@@ -295,21 +316,17 @@ def oracle_match(ctx, case, src_g, src_arr, tgt_g, res, tol, cv, mode='CONSTANT'
         ctx.fail(case, {'what': 'exactly representable reachable target: matched affine is not identical',
                         'got': [float(x) for x in ra], 'want': [float(x) for x in ta]}, site='match_geometry/geometry-exact')
         ok = False
-    # voxel coincidence from unique values
+    # voxel coincidence: every result voxel against the source voxel (vector of channel values) at its position
     arr = np.asarray(res.array)
-    # the one padding value of the constant-like modes (statistics are taken over the whole array incl. channels)
-    top = int(src_arr.max()) + 1000 * max(channels - 1, 0)
-    pad_vals = {'CONSTANT': cv, 'MINIMUM': int(src_arr.min()), 'MAXIMUM': top}
-    if channels:
-        base = arr[..., 0]
-        for i in range(1, channels):
-            good = (arr[..., i] == base + 1000 * i)
-            if mode in pad_vals:
-                good = good | ((base == pad_vals[mode]) & (arr[..., i] == pad_vals[mode]))
-            if not good.all():
-                ctx.fail(case, 'channel planes of the matched volume do not belong together', site='match_geometry/channels')
-                ok = False
-        arr = base
+    full = full_array(src_arr, channels)
+    f4 = full if full.ndim == 4 else full[..., None]
+    a4 = arr if arr.ndim == 4 else arr[..., None]
+    if a4.shape[-1] != f4.shape[-1] or arr.dtype != full.dtype:
+        ctx.fail(case, {'what': 'channel extent or dtype of the matched volume differs from the source',
+                        'got': [list(arr.shape), str(arr.dtype)], 'want': [list(full.shape), str(full.dtype)]},
+                 site='match_geometry/channels')
+        return False
+    padv = pad_vector(full, mode, cv, per_channel)
     n = src_g['shape']
     eps = F(0) if (src_g['exact'] and tgt_g['exact']) else F(1, 10 ** 6)
     for k in itertools.product(*[range(s) for s in shape]):
@@ -318,36 +335,41 @@ def oracle_match(ctx, case, src_g, src_arr, tgt_g, res, tol, cv, mode='CONSTANT'
         near = [round(v) for v in y]
         on_grid = all(abs(v - m) <= eps for v, m in zip(y, near))
         inside = on_grid and all(0 <= m < n[a] for a, m in enumerate(near))
-        v = int(arr[k])
+        v = [int(x) for x in a4[k]]
         if inside:
-            want = int(src_arr[tuple(near)])
+            want = [int(x) for x in f4[tuple(near)]]
             if v != want:
                 ctx.fail(case, {'what': 'voxel of the matched volume differs from the source voxel at the same position',
                                 'index': k, 'source_index': near, 'got': v, 'want': want}, site='match_geometry/voxels')
                 return False
         else:
-            if mode in pad_vals and v != pad_vals[mode]:
-                ctx.fail(case, {'what': 'voxel outside the source is not the padding value', 'index': k, 'got': v,
-                                'want': pad_vals[mode]}, site='match_geometry/padding')
-                return False
-            if mode in pad_vals and not on_grid and case.get('reachable'):
-                ctx.fail(case, {'what': 'reachable target but a matched voxel is off the source grid', 'index': k},
-                         site='match_geometry/grid')
+            if not on_grid:
+                if case.get('reachable'):
+                    ctx.fail(case, {'what': 'reachable target but a matched voxel is off the source grid', 'index': k},
+                             site='match_geometry/grid')
+                    return False
+                if padv is None:
+                    continue
+            want = padv if padv is not None else [int(x) for x in f4[tuple(min(max(m, 0), n[a] - 1) for a, m in enumerate(near))]]
+            if v != want:
+                ctx.fail(case, {'what': f'voxel outside the source is not the padding value of mode {mode}', 'index': k,
+                                'got': v, 'want': want}, site='match_geometry/padding')
                 return False
     return ok
 
 
-def model_match_req(src_g, src_arr, tgt_g, tol, cv):
-    return ('matchGeometry', {'src': geom_json(src_g), 'tgt': geom_json(tgt_g),
-                              'arr': [int(x) for x in src_arr.reshape(-1)], 'tol': rat(tol), 'c': int(cv)})
+def model_match_req(src_g, src_arr, tgt_g, tol, cv, mode='CONSTANT', channels=0, per_channel=False):
+    full = full_array(src_arr, channels)
+    # `per_channel` is only looked at for the statistic modes and more than one channel (Volume.pad)
+    return ('matchGeometry', {'src': geom_json(src_g), 'tgt': geom_json(tgt_g), 'nch': max(channels, 1),
+                              'arr': [int(x) for x in full.reshape(-1)], 'tol': rat(tol), 'c': int(cv), 'mode': mode,
+                              'per_channel': bool(per_channel and channels > 1)})
 
 
 def impl_match_obs(st, res, channels=0):
     if st != 'ok':
         return ('err', _err_kind(res))
     arr = np.asarray(res.array)
-    if channels:
-        arr = arr[..., 0]
     return ('ok', {'shape': [int(x) for x in res.spatial_shape], 'affine': frac_affine(res.affine),
                    'arr': [int(x) for x in arr.reshape(-1)]})
 
@@ -389,8 +411,10 @@ def gen_chain(ctx, i):
     idx = np.arange(N).reshape(src_g['shape'])
     length = r.choice([0, 1, 1, 2, 2, 3, 4, 5])
     tgt_g, tidx, ops = random_chain(r, copy_geom(src_g), idx, length)
-    opt = {'tgt_kind': r.choice(['geometry', 'volume']), 'mode': r.choice(['CONSTANT'] * 6 + ['MINIMUM', 'MAXIMUM', 'EDGE']),
-           'channels': r.choice([0, 0, 0, 0, 2]), 'tol': r.choice([TOL] * 5 + [F(1, 1000), F(1, 10 ** 7)]),
+    opt = {'tgt_kind': r.choice(['geometry', 'volume']),
+           'mode': r.choice(['CONSTANT'] * 5 + ['MINIMUM', 'MAXIMUM', 'MEAN', 'MEDIAN', 'EDGE', 'EDGE']),
+           'channels': r.choice([0, 0, 0, 1, 2, 3]), 'per_channel': r.random() < 0.4,
+           'tol': r.choice([TOL] * 5 + [F(1, 1000), F(1, 10 ** 7)]),
            'for_variant': r.choice(['same'] * 4 + ['tgt_none', 'src_none']),
            'src_kind': r.choice(['volume'] * 7 + ['geometry'])}
     if opt['for_variant'] == 'tgt_none':
@@ -430,12 +454,14 @@ def run_chain_case(ctx, i, reqs, pending):
         run_geometry_source_case(ctx, case, src_g, tgt_g, tgt, opt, ops, reqs, pending)
         return
     src = make_volume(src_g, src_arr, opt['channels'])
-    st, res = _call(src.match_geometry, tgt, mode=opt['mode'], constant_value=CV, tol=float(opt['tol']))
+    st, res = _call(src.match_geometry, tgt, mode=opt['mode'], constant_value=CV, per_channel=opt['per_channel'],
+                    tol=float(opt['tol']))
     crop_kinds = sorted({t for o in ops if o.startswith('crop:') for t in o[5:].split('+')})
     ctx.case(sample=case if i % 37 == 0 else None,
              nontrivial_key=('chain', tuple(ops), tuple(src_g['shape']), tuple(tgt_g['shape']), src_g['exact']) if st == 'ok' else None,
              stream='chain', chain_length=len(ops), outcome=('ok' if st == 'ok' else res), orientation=('signed-perm' if src_g['exact'] else 'rotated'),
-             pad_mode=opt['mode'], channels=opt['channels'], for_variant=opt['for_variant'], tgt_kind=opt['tgt_kind'])
+             pad_mode=opt['mode'] + ('/per_channel' if opt['per_channel'] and opt['mode'] in ('MINIMUM', 'MAXIMUM', 'MEAN', 'MEDIAN') and opt['channels'] > 1 else ''),
+             channels=opt['channels'], for_variant=opt['for_variant'], tgt_kind=opt['tgt_kind'])
     for o in ops:
         ctx.hist('chain_ops', o.split(':')[0])
     for t in crop_kinds:
@@ -445,15 +471,13 @@ def run_chain_case(ctx, i, reqs, pending):
     else:
         # (a voxel that an earlier crop removed and a later pad re-covers DOES overlap the source: the expectation
         # is computed from physical positions, never by replaying the chain on the array)
-        oracle_match(ctx, case, src_g, src_arr, tgt_g, res, opt['tol'], CV, opt['mode'], opt['channels'])
+        oracle_match(ctx, case, src_g, src_arr, tgt_g, res, opt['tol'], CV, opt['mode'], opt['channels'], opt['per_channel'])
         got = np.asarray(res.array)
-        got = got[..., 0] if opt['channels'] else got
         if opt['mode'] == 'CONSTANT':
             npad = int((got == CV).sum())
             ctx.hist('overlap', 'none' if npad == got.size else ('full' if npad == 0 else 'partial'))
-    if opt['mode'] == 'CONSTANT':
-        reqs.append(model_match_req(src_g, src_arr, tgt_g, opt['tol'], CV))
-        pending.append(('match', case, impl_match_obs(st, res, opt['channels']), src_g['exact'] and tgt_g['exact']))
+    reqs.append(model_match_req(src_g, src_arr, tgt_g, opt['tol'], CV, opt['mode'], opt['channels'], opt['per_channel']))
+    pending.append(('match', case, impl_match_obs(st, res, opt['channels']), src_g['exact'] and tgt_g['exact']))
 
 
 # ------------------------------------------------------------------------------------------ stream: perturb
@@ -671,17 +695,22 @@ def exact_geq(g, h, tol):
 def run_geq_case(ctx, i, reqs, pending):
     g, h, tol, expect, info = gen_geq(ctx, i)
     r = ctx.rng('geq-kind', i)
-    mk = [make_geometry, lambda x: make_volume(x, np.zeros(x['shape'], np.int16))]
-    A, B = r.choice(mk)(g), r.choice(mk)(h)
+    # a bare geometry, a volume without channels, volumes with 2 / 3 / 5 channels: channels must not matter
+    kinds = [(-1, make_geometry)] + [(c, (lambda c: lambda x: make_volume(x, np.zeros(x['shape'], np.int16), c))(c))
+                                    for c in (0, 2, 3, 5)]
+    (ca, mka), (cb, mkb) = r.choice(kinds), r.choice(kinds)
+    A, B = mka(g), mkb(h)
+    info['channels'] = [ca, cb]
     case = {'stream': 'geq', 'index': i, 'seed': ctx.seed, 'info': info}
     kw = {} if info['tol'] == 'default' else {'tol': (None if tol is None else float(tol))}
-    for direction, (X, Y, gx, gy) in (('ab', (A, B, g, h)), ('ba', (B, A, h, g))):
+    for direction, (X, Y, gx, gy, cx, cy) in (('ab', (A, B, g, h, ca, cb)), ('ba', (B, A, h, g, cb, ca))):
         st, val = _call(X.geometry_equal, Y, **kw)
         want, margins = exact_geq(gx, gy, tol)
         near = margins is not None and any(F(1, 4) < m < 4 for m in margins if m not in (0,))
         ctx.case(sample=dict(case, direction=direction) if i % 53 == 0 else None,
                  nontrivial_key=('geq', info['kind'], info['tol'], info.get('factor'), info.get('where'), direction, str(val)),
-                 stream='geq', geq_kind=info['kind'], geq_tol=info['tol'], outcome=str(val))
+                 stream='geq', geq_kind=info['kind'], geq_tol=info['tol'], outcome=str(val),
+                 geq_channels=f'{max(cx, 0)}/{max(cy, 0)}' + ('/geometry' if min(cx, cy) < 0 else ''))
         c2 = dict(case, direction=direction)
         if st != 'ok':
             ctx.fail(c2, f'geometry_equal raised {val}', site='geometry_equal')
@@ -692,7 +721,8 @@ def run_geq_case(ctx, i, reqs, pending):
         if bool(val) != want:
             ctx.fail(c2, {'what': 'geometry_equal disagrees with shape/coordinate system/affine-within-tolerance/frame-of-reference',
                           'got': bool(val), 'want': want}, site='geometry_equal')
-        reqs.append(('geometryEqual', {'a': geom_json(gx), 'b': geom_json(gy), 'tol': None if tol is None else rat(tol)}))
+        reqs.append(('geometryEqual', {'a': geom_json(gx), 'b': geom_json(gy), 'tol': None if tol is None else rat(tol),
+                                       'ca': max(cx, 0), 'cb': max(cy, 0)}))
         pending.append(('geq', c2, ('ok', bool(val)), None))
 
 
